@@ -34,7 +34,11 @@ def _meshes():
     b = C03._box((0, 1, 0), (1, 2, 1))
     V, F = C03._merge([a, b])
     ell = trimesh.Trimesh(np.array(V, dtype=float), np.array(F), process=False)     # two touching boxes: not used for caps
-    return {"box": box, "ico": ico, "cyl": cyl, "ann": ann, "tet": tet, "two": two}
+    # lopsided solids: most of the surface far from where a plane near the tip cuts
+    cone = trimesh.creation.cone(radius=1, height=10, sections=12)
+    rod = trimesh.util.concatenate([trimesh.creation.icosphere(subdivisions=1),
+                                    trimesh.creation.box(extents=[0.2, 0.2, 9]).apply_translation([0, 0, 5.2])])
+    return {"box": box, "ico": ico, "cyl": cyl, "ann": ann, "tet": tet, "two": two, "cone_long": cone, "rod_ball": rod}
 
 
 _M = None
@@ -47,7 +51,8 @@ def meshes():
     return _M
 
 
-ORIGINS = [[0, 0, 0], [1, 1, 1], [1, 0, 0], [0.5, 0.25, 0.125], [0, 0, 1], [2, 0, 0], [0, 0, 5], [0.3, 0.2, 0.1]]
+ORIGINS = [[0, 0, 0], [1, 1, 1], [1, 0, 0], [0.5, 0.25, 0.125], [0, 0, 1], [2, 0, 0], [0, 0, 5], [0.3, 0.2, 0.1],
+           [0, 0, 8.5], [0.05, 0, 9.3]]
 
 
 def cases(ctx):
@@ -71,6 +76,14 @@ def cases(ctx):
     for name in ("ico", "cyl"):
         for sc in (1, 3, 0.25):
             yield {"kind": "multiplane", "mesh": name, "normal": [0, 0, 1], "scale": sc, "heights": [-0.5, 0.0, 0.3, 0.7]}
+        # the same mesh object sectioned again along the same direction from another origin
+        yield {"kind": "multiplane", "mesh": name, "normal": [0, 0, 1], "scale": 1, "heights": [-0.5, 0.0, 0.3],
+               "origin": [0, 0, 0.2], "prior_origin": [0, 0, -0.35]}
+    # planes near the light end of lopsided solids, looking either way
+    for name in ("cone_long", "rod_ball"):
+        for z in (8.5, 9.3, 0.5):
+            for sgn in (1, -1):
+                yield {"kind": "slice", "mesh": name, "normal": [0, 0, sgn], "origin": [0, 0, z], "scale": 1, "cap": name == "cone_long"}
     while True:
         k = rng.choice(["section", "slice", "slice", "multiplane", "multi_slice", "subset", "cap_engines"])
         if k == "cap_engines":
@@ -88,7 +101,8 @@ def cases(ctx):
             yield {"kind": k, "mesh": name, "normal": n, "origin": o, "scale": rng.choice([1, 1, 2]), "cap": rng.random() < 0.6}
         elif k == "multiplane":
             yield {"kind": k, "mesh": name, "normal": n, "scale": rng.choice([1, 3, 0.25]),
-                   "heights": sorted(rng.choice([-0.7, -0.3, 0.0, 0.11, 0.35, 0.6, 0.9]) for _ in range(3))}
+                   "heights": sorted(rng.choice([-0.7, -0.3, 0.0, 0.11, 0.35, 0.6, 0.9]) for _ in range(3)),
+                   "origin": list(rng.choice(ORIGINS[:8])), "prior_origin": rng.choice([None, list(rng.choice(ORIGINS[:8]))])}
         elif k == "multi_slice":
             yield {"kind": k, "mesh": name, "planes": [[list(rng.choice(normals)), list(rng.choice(ORIGINS))] for _ in range(2)],
                    "cap": rng.random() < 0.6}
@@ -192,7 +206,11 @@ def run_case(c):
     elif k == "multiplane":
         n = np.array(c["normal"], float) * c["scale"]
         nn = n / np.linalg.norm(n)
-        org = np.array([0.0, 0.0, 0.0])
+        org = np.array(c.get("origin") or [0.0, 0.0, 0.0], dtype=float)
+        if c.get("prior_origin") is not None:
+            # an earlier call on the same mesh object, same direction, other origin: its results are discarded
+            m.section_multiplane(plane_origin=np.array(c["prior_origin"], dtype=float), plane_normal=n,
+                                 heights=np.array(c["heights"]))
         secs = m.section_multiplane(plane_origin=org, plane_normal=n, heights=np.array(c["heights"]))
         res = []
         for h, s in zip(c["heights"], secs):
